@@ -121,6 +121,9 @@ pub fn render_patch(doc: &Value) -> String {
     out
 }
 
+/// manifest of a foreign "checkpoint": restoring it deletes a.txt and ../a.txt (seen from the root)
+const PLANTED_MANIFEST: &str = r#"{"id":"planted","session_id":"planted","label":"planted","created_at_ms":1,"files":[{"path":"a.txt","exists":false,"sha256":null},{"path":"../a.txt","exists":false,"sha256":null}]}"#;
+
 pub fn tool_runner(root: &Path) -> ToolRunner {
     let registry = Arc::new(ToolRegistry::default());
     register_builtin_tools(
@@ -230,6 +233,8 @@ impl Sentinel {
             write_file(&d.join("secret.txt"), &format!("{tag}-secret\n"));
             write_file(&d.join("sub/b.txt"), &format!("{tag}-b\n"));
             write_file(&d.join("ü.txt"), &format!("{tag}-u\n"));
+            // a checkpoint-shaped directory: a rewind whose id is (mis)taken for a path would find a manifest here
+            write_file(&d.join("sub/checkpoint.json"), PLANTED_MANIFEST);
         }
         // the workspace (the checkpoint store under .rip is kept: it is observed, not reset)
         for e in std::fs::read_dir(&self.root).into_iter().flatten().flatten() {
@@ -241,6 +246,7 @@ impl Sentinel {
         write_file(&self.root.join("a.txt"), "inside-a needle\n");
         write_file(&self.root.join("sub/b.txt"), "inside-b needle\n");
         write_file(&self.root.join("ü.txt"), "inside-u\n");
+        write_file(&self.root.join("sub/checkpoint.json"), PLANTED_MANIFEST);
     }
     pub fn outside(&self) -> BTreeMap<String, String> {
         let mut out = BTreeMap::new();
